@@ -58,6 +58,8 @@ type observation struct {
 	Queries   int           `json:"queries"`
 	Answered  int           `json:"answered"`
 	StartMS   int64         `json:"start_ms"`
+	TrafficMS int64         `json:"traffic_ms"`
+	StopMS    int64         `json:"stop_ms"`
 	Config    string        `json:"-"`
 	Output    string        `json:"-"`
 	PortRetry int           `json:"port_retries,omitempty"`
@@ -259,7 +261,11 @@ func (h *harness) attempt(ms []mutation, tag string) (obs *observation, collided
 	if v, ok := treeGet(tree, cfgPath{key("check"), key("kv"), key("type")}); ok && fmt.Sprint(v) == "cache" {
 		sp.DNSCheckOK = true
 	}
+	tTraffic := time.Now()
 	obs.Groups, obs.Queries = runTraffic(liveServers(tree, loc), sp)
+	obs.TrafficMS = time.Since(tTraffic).Milliseconds()
+	tStop := time.Now()
+	defer func() { obs.StopMS = time.Since(tStop).Milliseconds() }()
 	for _, g := range obs.Groups {
 		obs.Answered += g.Answered
 	}
@@ -526,7 +532,7 @@ func (h *harness) account(cr caseResult, singles map[string]string) (class strin
 	if lp := os.Getenv("C20_LIST"); lp != "" {
 		h.seq.Lock()
 		if f, ferr := os.OpenFile(lp, os.O_APPEND|os.O_CREATE|os.O_WRONLY, 0o644); ferr == nil {
-			fmt.Fprintf(f, "%s\t%s\t%s\t%s\t%dms\t%s\n", ck, obs.Verdict, obs.Class, obs.NamedBy, obs.StartMS,
+			fmt.Fprintf(f, "%s\t%s\t%s\t%s\t%d/%d/%dms\t%s\n", ck, obs.Verdict, obs.Class, obs.NamedBy, obs.StartMS, obs.TrafficMS, obs.StopMS,
 				strings.ReplaceAll(tail(obs.Message, 300), "\n", " | "))
 			_ = f.Close()
 		}
@@ -747,6 +753,9 @@ func TestCheck(t *testing.T) {
 		for _, v := range f.Values {
 			singles = append(singles, caseSpec{Stream: "single", Idx: len(singles), Muts: []mutation{{Path: f.Path, Kind: f.Kind, Value: v}}})
 		}
+	}
+	if lim := atoiDefault(os.Getenv("C20_LIMIT"), 0); lim > 0 && lim < len(singles) {
+		singles = singles[:lim]
 	}
 	r.Bucket("cases_single", int64(len(singles)))
 	singleViol := map[string]string{}
